@@ -240,6 +240,20 @@ class XDataArray:
             coords[k] = XDataArray(_var=cv, name=k)
         return XDataArray(_var=v, name=self.name, _coords=coords)
 
+    def reset_coords(self, names=None, drop=False):
+        """XR-RESET-COORDS (drop=True): the non-index coordinates are left behind; index coordinates (a 1-d coordinate named like
+        its dimension) stay."""
+        if not drop:
+            raise Unsupported('DataArray.reset_coords(drop=False)')
+        if isinstance(names, str):
+            names = [names]
+        keep = {}
+        for k, c in self._coords.items():
+            is_index = c.variable.dims == (k,)
+            if is_index or (names is not None and k not in names):
+                keep[k] = c
+        return XDataArray(_var=self.variable, name=self.name, _coords=keep)
+
     def where(self, cond, other=None, drop=False):
         used('XR-WHERE')
         if drop:
@@ -309,6 +323,7 @@ class XDataArray:
 
     def to_netcdf(self, path=None, **kw):
         core.ctx().event('to_netcdf', 'DataArray', self, path, kw)
+        _store_file(path, self.to_dataset(name=self.name))
 
     def _iterate(self):
         n = self.variable.arr.shape[0]
@@ -349,6 +364,14 @@ class XDataArray:
     def __radd__(self, o): return self._arith(o, lambda a, b: b + a)
     def __sub__(self, o): return self._arith(o, lambda a, b: a - b)
     def __neg__(self): return self._arith(0, lambda a, b: -a)
+
+    def __invert__(self):
+        v = self.variable
+        src = v.arr.frozen()
+        if src.dtype.kind != 'b':
+            raise Unsupported('~ on a non-boolean DataArray')
+        arr = NDArray(src.shape, lambda i: core.s_not(truthy(src.fn(i))), src.dtype)
+        return XDataArray(_var=Variable(v.dims, arr, dict(v.attrs), dict(v.encoding)), name=self.name, _coords=dict(self._coords))
 
     def cumsum(self, dim=None, **kw):
         from . import depthlib
@@ -666,6 +689,7 @@ class XDataset:
         else:
             idx = dict(indexers or {})
         idx.update(kw)
+        core.ctx().event('Dataset.isel', self, dict(idx))
         sizes = self._sizes()
         for d in idx:
             if d not in sizes:
@@ -752,13 +776,57 @@ class XDataset:
 
     def to_netcdf(self, path=None, **kw):
         core.ctx().event('to_netcdf', 'Dataset', self, path, kw)
+        _store_file(path, self)
 
     __hash__ = None
 
 
+def _path_key(path):
+    return repr(path)
+
+
+def _store_file(path, ds):
+    """XR-NETCDF-ROUNDTRIP (stated): a dataset written to a file is read back with the same variables, dimensions, values and
+    attributes (snapshot at the time of writing).  What decoding does to fill values / dtypes is NOT modelled -- the bounded native
+    stand-ins exercise the real files."""
+    c = core.ctx()
+    files = getattr(c, 'files', None)
+    if files is None:
+        files = c.files = {}
+    snap = XDataset()
+    snap.attrs = dict(ds.attrs)
+    for k, v in ds._vars.items():
+        snap._vars[k] = Variable(v.dims, v.arr.frozen(), dict(v.attrs), dict(v.encoding))
+    snap._coord_names = set(ds._coord_names)
+    files[_path_key(path)] = snap
+
+
 @model
-def open_mfdataset(*a, **k):
-    raise Unsupported('xarray.open_mfdataset (IO-NETCDF-ROUNDTRIP is stated only)')
+def open_mfdataset(paths, **k):
+    """XR-OPEN-MFDATASET (stated): the union of the variables of the given files (no two files here define the same data
+    variable; shared coordinates are identical copies), global attributes of the first file."""
+    used('XR-NETCDF-ROUNDTRIP')
+    used('XR-OPEN-MFDATASET')
+    c = core.ctx()
+    files = getattr(c, 'files', {})
+    out = XDataset()
+    first = True
+    for p in paths:
+        key = _path_key(p)
+        if key not in files:
+            raise_(FileNotFoundError, f'no such file: {p!r}')
+        f = files[key]
+        if first:
+            out.attrs = dict(f.attrs)
+            first = False
+        for name, v in f._vars.items():
+            if name in out._vars:
+                continue
+            out._vars[name] = Variable(v.dims, v.arr, dict(v.attrs), dict(v.encoding))
+            if name in f._coord_names:
+                out._coord_names.add(name)
+    c.event('open_mfdataset', list(paths), k)
+    return out
 
 
 @model
@@ -802,7 +870,9 @@ class _Dtypes:
         if d.kind == 'V':
             p = getattr(d, 'promotes_to_self', None)
             if p is None:
-                raise Unsupported('maybe_promote of opaque dtype')
+                # a variable of arbitrary (unknown) dtype: both outcomes are explored
+                from .stdlib import choice
+                p = choice('dtype_promotes_to_itself')
             return (d if p else np.OBJECT), getattr(d, 'na', NANV)
         raise Unsupported(f'maybe_promote({d.name})')
 
